@@ -482,6 +482,13 @@ def judge(args, agg, i5, pool, tier, nb, harness_problem):
             d["hashseeds"][0], d["hashseeds"][1],
             [k for k, v in (d.get("attribution") or {}).items() if v] or "undetermined",
             d.get("n_divergent"), json.dumps(ea.get("op")), ea.get("s", "")[:90], eb.get("s", "")[:90]))
+    # not violations by themselves (C18 permits edits that leave every result unchanged), but
+    # worth a line: on the repaired tree the library makes neither kind of edit
+    for key in ("a caller-owned TRANSFORMS object was edited in place",
+                "a caller-owned RESPONSE object was edited other than by adding subvar_alias/datetime_value"):
+        if agg.probes.get(key):
+            detail = sorted(k for k in agg.probes if k.startswith("transforms edit: "))[:4]
+            lines.append("NOTE: %s in %d steps%s" % (key, agg.probes[key], (" e.g. " + "; ".join(detail)) if detail and "TRANSFORMS" in key else ""))
     if agg.harness_errors and rc == 0:
         harness_problem = harness_problem or "%d runs ended in a harness error, e.g. seed %s: %s" % (
             sum(v for k, v in agg.n.items() if k.endswith("harness_error")),
